@@ -26,7 +26,7 @@ F_SPLIT = 'digit-leading-alnum-ident-split'           # "alpha.1a" read as alpha
 F_LEPRE = 'le-prerelease-bound-drops-prerelease'      # "<=I.J.K-pre" treated as "<I.J.(K+1)"
 F_LENEXT = 'le-full-version-admits-next-patch-prereleases'   # "<=I.J.K" treated as "<I.J.(K+1)" (admits I.J.(K+1)-pre)
 F_STAR = 'empty-requirement-accepts-prerelease'       # "*" / "" accept pre-release versions
-FLAGS = [F_NUM1, F_SPLIT, F_LEPRE, F_LENEXT, F_STAR]
+FLAGS = [F_LEPRE, F_LENEXT, F_STAR, F_NUM1, F_SPLIT]     # defects still present first: a point explained by several models is filed under the first
 
 
 def ident(x):
@@ -307,10 +307,12 @@ def impl_accepts(req):
 
 def classify_req(cs, vtext, got):
     # explained by one registered defect model: with it the point is predicted as observed, or stops being decidable
-    for n in (1, 2, 3):
-        for fls in itertools.combinations(FLAGS, n):
-            if expected(cs, vtext, fls) in (got, None):
-                return 'C20:req:' + fls[0]        # a combination is filed under its first constituent
+    for accept in ((got,), (None,)):
+        # first the models that predict the observation exactly, only then those under which the point is undecidable
+        for n in (1, 2, 3):
+            for fls in itertools.combinations(FLAGS, n):
+                if expected(cs, vtext, fls) in accept:
+                    return 'C20:req:' + fls[0]        # a combination is filed under its first constituent
     v = parse_version(vtext)
     kind = 'prerelease' if v[3] else 'release'
     return 'C20:req:%s:%s:%s' % ('+'.join(sorted({c.cls() for c in cs})) or 'any', kind, 'overaccept' if got else 'overreject')
